@@ -89,9 +89,16 @@ def _check_main(ctx, rep: Report):
         lazy_locks |= set(held_locks)
         # DCL: an If inside the innermost lock region encloses the call and tests the bootstrapped state
         lock_with = [w for w in withs if any(ast.unparse(it.context_expr) in locks for it in w.items)][-1]
-        ifs = _enclosing(lock_with, b, (ast.If,))
-        good = [i for i in ifs if any(k in ast.unparse(i.test) for k in ("_SpecClassMetadataPlaceholder", "__spec_class__", "bootstrapped"))]
-        rep.oblige("C19.DCL", f"lazy trigger `{name}`", bool(good), f"conditions inside the lock: {[ast.unparse(i.test)[:60] for i in ifs]}")
+        # (nested `if` form, or the early-return form `if <bootstrapped>: return` before the call)
+        from . import boolfn
+        from .c17 import _dealias
+
+        def holds_boot(s_, b=b):
+            return not isinstance(s_, ast.If) and any(x is b for x in ast.walk(s_))
+        rc = boolfn.reach_condition(lock_with.body, holds_boot)
+        rc_src = "" if rc is None or rc is True else _dealias(inner, rc)
+        good = any(k in rc_src for k in ("_SpecClassMetadataPlaceholder", "__spec_class__", "bootstrapped"))
+        rep.oblige("C19.DCL", f"lazy trigger `{name}`", bool(good), f"condition inside the lock under which bootstrap() is reached: {rc_src[:160]}")
         if not good:
             rep.violate(Violation("C19.DCL", f"C19.DCL|{name}", f"`{name}` does not re-check, inside the lock, that the class is still un-bootstrapped: a thread that waited on the lock bootstraps the class a second time",
                                   f"{rel}:{b.lineno}", "spec_class.__call__"))
